@@ -197,7 +197,11 @@ def polarity_mir(facts, row):
 def cond_tagset(T, fn, want_branch):
     """In `fn`, find the if one of whose branches satisfies want_branch and whose condition applies tag predicates to one
     local; return ({tag: truth of "that branch is taken"}, if-expr) or (None, None)."""
-    for e, anc in hir_walk(fn.hir['body']):
+    # the function and the private helpers split off it since the pinned tree (`cycles_check` -> `cycles_pass`)
+    known = T.f.known_fns_or_aliases() if hasattr(T.f, 'known_fns_or_aliases') else set()
+    plain = T.f.fns.get(fn.id, fn)
+    units = [fn] + [g for g in T.f.family(plain) if g.id != fn.id and g.kind != 'Closure' and g.hir and g.qname not in known]
+    for e, anc in (x for u in units for x in hir_walk(u.hir['body'])):
         if e['k'] != 'if':
             continue
         on_then = want_branch(e['then'])
